@@ -1,4 +1,5 @@
 import HeartwoodModel.Lemmas.Wire
+import HeartwoodModel.Props.C14
 /-!
 # C15 — Wire messages round-trip and have a unique encoding
 
@@ -18,6 +19,8 @@ Property theorems about `Model/Wire.lean` (`wire::serialize` / `wire::deserializ
 * `reencode_ok` / `reencode_oversize_counterexample` — a cleanly decoded message of at most 65 535 bytes
   re-serializes to its input; known finding `decoded-message-not-encodable`: ping/pong counts above
   `MAX_*_ZEROES` decode (inside a large gossip frame) to a message `wire::serialize` panics on;
+* `stream_decode_encode` — on the production path (gossip frames through the stream `Deserializer`, any
+  chunking of the transport reads) every well-formed message arrives as an equal message;
 * `signed_bytes_are_sent_bytes` — for a cleanly decoded announcement, the bytes `Announcement::verify`
   re-serializes and checks the signature over are the bytes the sender sent after type, node id, signature.
 -/
@@ -169,6 +172,41 @@ theorem reencode_oversize_counterexample :
         length_encU16, List.length_replicate, Bool.true_and, decide_eq_true_eq]
       omega
   exact ⟨_, _, key 65535 (by decide) (by decide)⟩
+
+/-! ### the stream path -/
+
+open HeartwoodModel.Frame in
+/-- **stream_decode_encode.** The production path: well-formed messages `p.2.1`, each framed as a gossip
+frame on stream `p.1` (`p.2.2` = what `Frame::encode` wrote), concatenated and delivered to the inbox
+`Deserializer<B, Frame>` in ANY chunking of transport reads that respects the inbox bound, come out as
+exactly the sent messages, in order, with nothing left over — at whatever byte a read happens to end (in
+particular between the nonce and the user agent of a node announcement). Corollary of C14's
+`chunking_independent_message` and `decode_encode`. -/
+theorem stream_decode_encode (env : Env) (ms : List (Nat × Msg × Bytes))
+    (h : ∀ p ∈ ms, kindOf p.1 = some .gossip ∧ Wf env p.2.1 ∧
+      Frame.encode? Msg.serialize? ⟨p.1, .gossip p.2.1⟩ = some p.2.2)
+    (chunks : List Bytes) (hc : chunks.flatten = (ms.map (·.2.2)).flatten)
+    (B : Nat) (hB : FitsInbox B (ms.map (·.2.2.length)) 0 chunks) :
+    ∃ groups, Deser.feed (Frame.decode (decodeMsg env)) B ⟨[]⟩ chunks = some (groups, ⟨[]⟩, .more) ∧
+      groups.flatten = ms.map (fun p => (⟨p.1, .gossip p.2.1⟩ : Frame Msg)) ∧
+      groups.length = chunks.length := by
+  let f : Nat × Msg × Bytes → Frame Msg × Bytes := fun p => (⟨p.1, .gossip p.2.1⟩, p.2.2)
+  have e1 : (ms.map f).map (·.2) = ms.map (·.2.2) := by rw [List.map_map]; rfl
+  have e2 : (ms.map f).map (·.2.length) = ms.map (·.2.2.length) := by rw [List.map_map]; rfl
+  have e3 : (ms.map f).map (·.1) = ms.map (fun p => (⟨p.1, .gossip p.2.1⟩ : Frame Msg)) := by
+    rw [List.map_map]; rfl
+  have := C14.chunking_independent_message env (ms.map f)
+    (by
+      intro q hq
+      obtain ⟨p, hp, rfl⟩ := List.mem_map.mp hq
+      obtain ⟨hk, hw, he⟩ := h p hp
+      refine ⟨he, hk, ?_⟩
+      intro m hm
+      cases hm
+      exact hw)
+    chunks (by rw [e1]; exact hc) B (by rw [e2]; exact hB)
+  rw [e3] at this
+  exact this
 
 /-! ### signatures -/
 
